@@ -40,6 +40,14 @@ func newConfig(options []Option) *config {
 	return c
 }
 
+// newConfigWithoutEncode is for Mkdir, Verify and Walk. The encoding options only concern Output;
+// these operations need the path of every node, which is not computed when an encoding is selected.
+func newConfigWithoutEncode(options []Option) *config {
+	c := newConfig(options)
+	c.encode = encodeDefault
+	return c
+}
+
 // Option is functional options pattern
 type Option func(*config)
 
